@@ -161,14 +161,14 @@ impl Property for C12 {
         true
     }
     fn cases(&self, tier: Tier) -> u32 {
-        tier.pick(4_000, 40_000)
+        tier.pick(3_000, 30_000)
     }
     fn strategy(&self, _tier: Tier) -> BoxedStrategy<Abs> {
         let base = prop_oneof![
             // small outputs, and outputs several times a 4096-byte window (so that the
             // circular window is flushed to the sink in mid-stream)
-            12 => abs_lzma_file(20, 10, 1500).prop_map(|mut f| { f.h13 = true; AbsBase::Lzma(f) }),
-            8 => (abs_lzma_file(20, 20, 30_000), 16u16..80, any::<u16>()).prop_map(|(mut f, k, dsel)| {
+            36 => abs_lzma_file(20, 10, 1500).prop_map(|mut f| { f.h13 = true; AbsBase::Lzma(f) }),
+            24 => (abs_lzma_file(20, 20, 30_000), 16u16..80, any::<u16>()).prop_map(|(mut f, k, dsel)| {
                 f.h13 = true;
                 f.dict = f.dict.min(4097);
                 f.prog.insert(0, crate::gen::program::AbsOp::Lit(crate::gen::program::LitKind::Given, k as u8));
@@ -179,8 +179,8 @@ impl Property for C12 {
                 });
                 AbsBase::Lzma(f)
             }),
-            12 => abs_chunks(4, 10, 10, false).prop_map(AbsBase::Lzma2),
-            12 => abs_xz(3, 2, 8, 600).prop_map(AbsBase::Xz),
+            36 => abs_chunks(4, 10, 10, false).prop_map(AbsBase::Lzma2),
+            36 => abs_xz(3, 2, 8, 600).prop_map(AbsBase::Xz),
             1 => (abs_xz(1, 1, 4, 3 << 20), 5000u16..9000, any::<u16>()).prop_map(|(mut x, k, dsel)| {
                 // one block decompressing to more than 1 MiB
                 use crate::gen::lzma2::AbsChunk;
@@ -268,7 +268,7 @@ impl Property for C12 {
             ("fault:flush", 1000 * k),
             ("fault:source interrupted", 20_000 * k),
             ("entry:LzmaDecompressOpt", 50 * k),
-            ("xz block output > 1 MiB", 20 * k),
+            ("xz block output > 1 MiB", 3 * k),
             ("entry:Stream", 100 * k),
             ("entry:XzCompress", 100 * k),
             ("entry:LzmaDecompress", 100 * k),
